@@ -193,8 +193,8 @@ def cif_rows(spec_rows: Sequence[Tuple[Any, ...]], first_id: int = 1, icode_colu
         model = r[3] if len(r) > 3 else 1
         row = {
             "group_PDB": "HETATM" if k % 5 == 4 else "ATOM", "id": first_id + k, "type_symbol": ["P", "C", "N", "O"][k % 4], "label_atom_id": ["P", "C4'", "N1", "O6"][k % 4], "auth_atom_id": ["P", "C4'", "N1", "O6"][k % 4],
-            "label_alt_id": None, "label_comp_id": ["G", "C", "A", "U"][k % 4], "auth_comp_id": ["G", "C", "A", "U"][k % 4], "label_asym_id": chain, "auth_asym_id": chain, "label_entity_id": "1",
-            "label_seq_id": num, "auth_seq_id": num, "pdbx_PDB_ins_code": ic, "Cartn_x": 1.5 + k, "Cartn_y": -2.25 - k, "Cartn_z": 30.125 + k, "occupancy": 1.0, "B_iso_or_equiv": 20.5 + k,
+            "label_alt_id": "A" if k % 4 == 1 else None, "label_comp_id": ["G", "C", "A", "U"][k % 4], "auth_comp_id": ["G", "C", "A", "U"][k % 4], "label_asym_id": chain, "auth_asym_id": chain, "label_entity_id": "1",
+            "label_seq_id": num, "auth_seq_id": num, "pdbx_PDB_ins_code": ic, "Cartn_x": 1.5 + k, "Cartn_y": -2.25 - k, "Cartn_z": 30.125 + k, "occupancy": round(0.35 + 0.05 * k, 2), "B_iso_or_equiv": 20.5 + k,
             "pdbx_formal_charge": None, "pdbx_PDB_model_num": model,
         }
         if not icode_column:
